@@ -1,6 +1,8 @@
 package main
 
 import (
+	"github.com/oasisprotocol/oasis-core/go/common/version"
+	consensusState "github.com/oasisprotocol/oasis-core/go/consensus/cometbft/apps/consensus/state"
 	"encoding/json"
 	"fmt"
 	"os"
@@ -101,6 +103,30 @@ func registryInvariants(n *chain.Node) string {
 			return fmt.Sprintf("nodes-by-entity index of %s lists [%s], the node records imply [%s]", e.ID, strings.Join(got, ","), strings.Join(want, ","))
 		}
 	}
+	// runtime-by-entity index (kept exact from consensus feature version 26.1 on; before that an
+	// ownership transfer left the previous owner's entry behind)
+	if cp, err := consensusState.NewImmutableState(t).ConsensusParameters(chain.Ctx); err == nil && cp.FeatureVersion != nil && cp.FeatureVersion.ToU64() >= version.MustFromString("26.1").ToU64() {
+		owns := map[signature.PublicKey]bool{}
+		for _, rt := range runtimes {
+			owns[rt.EntityID] = true
+		}
+		cands := map[signature.PublicKey]bool{}
+		for _, e := range entities {
+			cands[e.ID] = true
+		}
+		for id := range owns {
+			cands[id] = true
+		}
+		for id := range cands {
+			has, err := rs.HasEntityRuntimes(chain.Ctx, id)
+			if err != nil {
+				return fmt.Sprintf("HasEntityRuntimes(%s): %v", id, err)
+			}
+			if has != owns[id] {
+				return fmt.Sprintf("runtime-by-entity index says entity %s owns runtimes = %v, the runtime records imply %v", id, has, owns[id])
+			}
+		}
+	}
 	// stake claims
 	params, err := ss.ConsensusParameters(chain.Ctx)
 	if err != nil || params.DebugBypassStake {
@@ -192,6 +218,7 @@ func c17Universes(r *ev.Run) []*c17Universe {
 	for ui, o := range []chain.GenesisOptions{
 		{EpochInterval: 1, NodeExpirations: []uint64{12, 3, 12}},
 		{EpochInterval: 1, NodeExpirations: []uint64{12, 3, 12}, Runtime: true, RtFunded: true},
+		{EpochInterval: 1, NodeExpirations: []uint64{12, 3, 12}, Runtime: true, RtFunded: true, Feature261: true},
 	} {
 		w, err := newWorld(o)
 		if err != nil {
